@@ -303,8 +303,8 @@ class C13(engine.Property):
     nontermination_is_violation = True
     run_wall_s = 120
     budget = {
-        "quick": {"runs": 10000, "wall_cap_s": 900},
-        "thorough": {"runs": 200000, "wall_cap_s": 3300},
+        "quick": {"runs": 20000, "wall_cap_s": 900},
+        "thorough": {"runs": 800000, "wall_cap_s": 5400},
     }
     rule = (
         "one evaluation = one seeded run: a world grown by a history of public mutators, then "
